@@ -325,7 +325,11 @@ impl ParsedParameters {
 
                 OpParameter::Text { key, default } => {
                     if let Some(value) = chase(globals, &locals, key)? {
-                        // should chase!
+                        // Ellipsoids are looked up without further ado at run time,
+                        // so an unknown one must be refused here
+                        if key == "ellps" || key.starts_with("ellps_") {
+                            Ellipsoid::named(&value)?;
+                        }
                         text.insert(key, value.to_string());
                         continue;
                     }
